@@ -47,6 +47,12 @@ CHECKS = {
  "C19": dict(level="exploration", technique="property-based fault injection (rapid): invalid configurations x front-ends x package counts, and workspaces with injected syntax/type/import faults, through the built binaries with a crash/hang/clean-failure oracle",
    text="Five classes of invalid configuration (11 malformed -go spellings, unknown failOn, unmatched rules patterns incl. after a matching one, empty selections, unparsable parameter values) on all four binaries over 1-3 packages must exit non-zero with a message naming the problem, no crash trace and no diagnostics; packages with 1-2 injected faults of 12 kinds must never crash or hang any front-end.",
    note="Crash = panic/fatal/signal trace in the output; hang = not finished within 150 s twice; crash signatures carry the failing call site.", ref="4/C19"),
+ "C14": dict(level="exploration", technique="property-based testing (rapid): boundary kernels of exact measure, threshold-pair monotonicity relation, compile-and-run size oracle (unsafe.Sizeof), CLI/analyzer-vs-in-process parameter plumbing differential",
+   text="For the seven numeric thresholds, constructs of exactly known measure are analysed at thresholds around the measure and must fire exactly at the documented boundary and once; on generated programs a relaxed threshold may never add diagnostics; byte sizes quoted by hugeParam equal unsafe.Sizeof of a compiled program over random struct types; parameter values given through CLI/analyzer flags behave like the in-process registry override.",
+   note="Boundary direction is taken from the usage strings; unsafe.Sizeof of the local Go toolchain is the size reference.", ref="4/C14"),
+ "C15": dict(level="exploration", technique="property-based testing (rapid): generated programs x target versions against an API-introduction index rebuilt from GOROOT/api; exhaustive grid check of the version parser/comparator",
+   text="Every std function/method/literal syntax recommended in a message or fix (and not quoted from the source) is looked up in GOROOT/api and must not be newer than the configured target (1.13..1.25, both spellings); no version behaves as the newest; the parser is compared with numeric ordering on the full 31x31 grid.",
+   note="GOROOT/api is the reference; methods are looked up by the minimum version over receiver types (can only under-report).", ref="4/C15"),
 }
 
 NOT_YET = {}
